@@ -74,7 +74,7 @@ DECIDED = {
             "2^53), so that its single IEEE operation is the rounding of exactly w*10^e. The SSE digit reader simd_str2int (the 16-digit fraction reader of "
             "target-cpu=native builds) equals the decimal value of the digits for every need 1..16, every position and class of the "
             "first non-digit and every byte value (SMT over its MIR with lane-wise intrinsic models). The scanner in front of them, "
-            "parse_number with parse_number_fraction and parse_exponent, by SMT per literal shape (1440 shapes quick, 40204 thorough: sign x "
+            "parse_number with parse_number_fraction and parse_exponent, by SMT per literal shape (1764 shapes quick, 40996 thorough, incl. malformed ones that must be rejected: sign x "
             "0 or 1..22 integer digits x 0..22 fraction digits x exponent forms x end-of-input/more input) for EVERY value of every digit: "
             "it consumes exactly the literal, returns the exact u64/i64 with the right class or the signed zero, never rejects a "
             "well-formed literal, and otherwise hands parse_float a significand/exponent pair that denotes the literal exactly "
